@@ -7,9 +7,11 @@
         via = 0 add_observations(rows); 1 train_model path (subset_observed, then add_observations);
               2 _add_observations(rows) (guard of the base class bypassed)
      (2 rowsA rowsB)                   -> (downstream_input equal?  downstream_input A)
+     (3 mk_args)                       -> result: id-level rows (sample plate tids obs mask) of the screen the
+                                          shared constructor model builds (mk_args as in Model/ScreenIO.v)
    trip = (y cl d1 d2); lookup = (((s t) v) ...). *)
 From Coq Require Import ZArith List Bool QArith Qcanon.
-From Batchie Require Import Lib.Sexp Lib.Num Model.Train.
+From Batchie Require Import Lib.Sexp Lib.Num Model.Screen Model.ScreenIO Model.Train Model.TrainScreen.
 Import ListNotations.
 Open Scope Z_scope.
 
@@ -81,6 +83,14 @@ Definition run_req (orc : oracle) (s : sexp) : sexp :=
           let vb := downstream_input (map fst b) in
           SL [of_bool (drows_eqb va vb); of_list of_drow va]
       | _, _ => bad_input
+      end
+  | SL [SZ 3; args] =>
+      match as_mk_args args with
+      | Some a =>
+          of_result (of_list (fun r => SL [SZ (t_sample r); SZ (t_plate r); of_Zs (t_treats r); of_oval (t_obs r);
+                                           of_bool (t_mask r)]))
+            (dor sc <- mk_screen_args a; Ok (trows_of_screen sc))
+      | None => bad_input
       end
   | _ => bad_input
   end.
